@@ -28,6 +28,18 @@ type vState struct {
 	covers   map[string]bool
 	known    map[string]bool
 	tier     string
+	failures []string
+}
+
+func vIsFindingLabel(l string) bool {
+	if len(l) < 3 || l[0] != 'F' {
+		return false
+	}
+	i := 1
+	for i < len(l) && l[i] >= '0' && l[i] <= '9' {
+		i++
+	}
+	return i > 1 && i < len(l) && l[i] == ':'
 }
 
 var vS = &vState{}
@@ -44,6 +56,10 @@ func vReg(name string, f func()) bool {
 
 func vNext(kind, tag string) int64 {
 	if vS.pos >= len(vS.inputs) {
+		if len(vS.failures) > 0 {
+			// the recorded vector ends at the violation inside a finding region
+			panic(vAbort{"end-after-finding"})
+		}
 		panic(vAbort{fmt.Sprintf("diverge: inputs exhausted at %s %q", kind, tag)})
 	}
 	in := vS.inputs[vS.pos]
@@ -104,6 +120,11 @@ func vOrdered(keys [][]byte) {
 
 func vAssert(c bool, label string) {
 	if !c {
+		if vIsFindingLabel(label) {
+			// region of a recorded finding: note it and keep going (the executor does the same)
+			vS.failures = append(vS.failures, label)
+			return
+		}
 		panic(vFailure{label})
 	}
 }
